@@ -252,6 +252,15 @@ pub fn apply_fn_model(name: &str, m: &FnModel, arg: &RV) -> Result<RV, RErr> {
             RV::Tuple(t) => Ok(RV::Int(t.len() as i64)),
             _ => Err(RErr::Class(ErrClass::Type)),
         },
+        // the function exists and was called: its error is the outcome. (If it names itself, the Context trait cannot
+        // tell the failure from "no such function in this context"; that case is not claimed.)
+        FnModel::FailNotFound(inner) => {
+            if *inner == name {
+                Err(RErr::Unclaimed("a user function reporting itself as not found".into()))
+            } else {
+                Err(RErr::Class(ErrClass::UnknownFn(inner.to_string())))
+            }
+        },
     }
 }
 
